@@ -30,6 +30,8 @@ ap.add_argument("--also", default="")
 ap.add_argument("--tier", default="quick")
 ap.add_argument("--keep-unconfirmed", action="store_true")
 ap.add_argument("--no-baseline", action="store_true", help="re-validation: reuse the recorded baseline result")
+ap.add_argument("--base", default="HEAD", help="commit of /repo the patch is based on (default HEAD); used for seeds "
+                "that a later fix: commit neutralised or that only apply to their original base")
 a = ap.parse_args()
 
 sd = os.path.abspath(a.seed_dir)
@@ -44,11 +46,11 @@ def run(cmd, **kw):
 
 wt = tempfile.mkdtemp(prefix="vmc-seedwt-", dir="/tmp")
 os.rmdir(wt)
-meta = dict(property=a.pid, name=a.name, base_commit=run(["git", "-C", "/repo", "rev-parse", "HEAD"]).stdout.strip(),
+meta = dict(property=a.pid, name=a.name, base_commit=run(["git", "-C", "/repo", "rev-parse", a.base]).stdout.strip(),
             validated_at=time.strftime("%Y-%m-%dT%H:%M:%S"), ran=[])
 ok = True
 try:
-    run(["git", "-C", "/repo", "worktree", "add", "--detach", wt, "HEAD"])
+    run(["git", "-C", "/repo", "worktree", "add", "--detach", wt, a.base])
     env = dict(os.environ, PYTHONDONTWRITEBYTECODE="1", MPLBACKEND="Agg")
     r = run(["/venv/bin/python", "-B", demo, wt], env=env, cwd=wt)
     meta["demo_exit_clean"] = r.returncode
